@@ -103,15 +103,18 @@ func (c ConditionFunction) Evaluate(a interface{}, b interface{}) (bool, error) 
 	}
 	switch c {
 	case ConditionEqual:
-		return reflect.DeepEqual(a, b), nil
+		return valuesEqual(x, y), nil
 	case ConditionNotEqual:
-		return !reflect.DeepEqual(a, b), nil
+		return !valuesEqual(x, y), nil
 	case ConditionIncludes:
 		switch x.Kind() {
 		case reflect.Slice:
 			return sliceContains(x, y), nil
 		case reflect.Map:
 			return mapContains(x, y), nil
+		case reflect.Ptr:
+			// an optional value is a set of at most one element
+			return y.IsNil() || valuesEqual(x, y), nil
 		case reflect.Int, reflect.Float64, reflect.Bool, reflect.String:
 			return reflect.DeepEqual(a, b), nil
 		default:
@@ -120,9 +123,11 @@ func (c ConditionFunction) Evaluate(a interface{}, b interface{}) (bool, error) 
 	case ConditionExcludes:
 		switch x.Kind() {
 		case reflect.Slice:
-			return !sliceContains(x, y), nil
+			return !sliceIntersects(x, y), nil
 		case reflect.Map:
-			return !mapContains(x, y), nil
+			return !mapIntersects(x, y), nil
+		case reflect.Ptr:
+			return x.IsNil() || y.IsNil() || !valuesEqual(x, y), nil
 		case reflect.Int, reflect.Float64, reflect.Bool, reflect.String:
 			return !reflect.DeepEqual(a, b), nil
 		default:
@@ -173,6 +178,50 @@ func (c ConditionFunction) Evaluate(a interface{}, b interface{}) (bool, error) 
 	}
 	// we should never get here
 	return false, fmt.Errorf("unreachable condition")
+}
+
+// valuesEqual compares two values of the same kind as OVSDB values: sets are
+// compared regardless of element order, an empty set or map equals a nil one,
+// and optional values (pointers) are compared by the value they point to.
+func valuesEqual(x, y reflect.Value) bool {
+	switch x.Kind() {
+	case reflect.Slice:
+		return x.Len() == y.Len() && sliceContains(x, y) && sliceContains(y, x)
+	case reflect.Map:
+		return x.Len() == y.Len() && mapContains(x, y)
+	case reflect.Ptr:
+		if x.IsNil() || y.IsNil() {
+			return x.IsNil() && y.IsNil()
+		}
+		return reflect.DeepEqual(x.Elem().Interface(), y.Elem().Interface())
+	case reflect.Invalid:
+		return true
+	default:
+		return reflect.DeepEqual(x.Interface(), y.Interface())
+	}
+}
+
+// sliceIntersects returns whether x and y have any element in common
+func sliceIntersects(x, y reflect.Value) bool {
+	for i := 0; i < y.Len(); i++ {
+		if sliceContains(x, y.Slice(i, i+1)) {
+			return true
+		}
+	}
+	return false
+}
+
+// mapIntersects returns whether x and y have any key-value pair in common
+func mapIntersects(x, y reflect.Value) bool {
+	iter := y.MapRange()
+	for iter.Next() {
+		single := reflect.MakeMapWithSize(y.Type(), 1)
+		single.SetMapIndex(iter.Key(), iter.Value())
+		if mapContains(x, single) {
+			return true
+		}
+	}
+	return false
 }
 
 func sliceContains(x, y reflect.Value) bool {
